@@ -17,7 +17,9 @@ Inductive ev :=
 | RetNil                          (* explicit nil error result *)
 | RetTailOk (callee : string)     (* `return f(...)` and f succeeded *)
 | Spawn (f : string)              (* go f() *)
-| Panic (site : string).
+| Panic (site : string)
+| Enter (f : string)             (* a translated function's body starts *)
+| Leave (f : string).            (* ... and ends (on every exit) *)
 
 Notation SK := (Skip ev string).
 Notation BR := (Break ev string).
